@@ -99,6 +99,9 @@ class State(_train.Listener):
             ctx.count("steps_with_shrinkage")
         after = [np.asarray(w) for w in weights]
         snap = self.snap
+        if not all(np.all(np.isfinite(w)) for w in snap) or not all(np.all(np.isfinite(w)) for w in after):
+            ctx.count("nonfinite_state_skipped")      # C17's business: nothing about the shrinkage can be decided on nan
+            return
         if kind == "linear":
             W, b = snap[0], snap[1]
             exp = np.empty_like(W)
@@ -158,6 +161,9 @@ class State(_train.Listener):
         ctx.count("quiescent_points")
         ctx.count("quiescent:" + where)
         ctx.count("evaluations")
+        if not all(np.all(np.isfinite(w)) for w in model._get_weights()):
+            ctx.count("nonfinite_state_skipped")
+            return
         is_mlp = hasattr(model, "W_skip_")
         Wsel = model.W_skip_ if is_mlp else model.W_
         nonzero = np.array([bool(np.any(Wsel[i] != 0)) for i in range(d)])
@@ -263,6 +269,24 @@ def run_case(case, ctx, st):
             est.fit(X)
             ctx.count("fits")
             st.ctx.guard(st.quiescent, "quiescent")(est, "after-fit")
+            # crafted quiescent states on a copy of the fitted model: a row of tiny but non-zero weights is a selected
+            # feature, a row of exact zeros is not - whatever training happened to produce
+            import copy
+            twin = copy.deepcopy(est)
+            Wsel = twin.W_skip_ if hasattr(twin, "W_skip_") else twin.W_
+            j_tiny, j_zero = int(rng.integers(0, d)), int(rng.integers(0, d))
+            Wsel[j_tiny] = rng.normal(size=Wsel.shape[1]) * float(10 ** rng.uniform(-12, -4))
+            if twin.groups_ is None or True:
+                members = [j_zero] if twin.groups_ is None else [i for g in twin.groups_ if j_zero in g for i in g]
+                if j_tiny not in members:
+                    Wsel[members] = 0.0
+                    if hasattr(twin, "W1_"):
+                        twin.W1_[members] = 0.0
+            ug = st.user_groups
+            ok_groups = ug is None or all(len({bool(np.any(Wsel[i] != 0)) for i in g}) == 1 for g in ug)
+            if ok_groups:
+                ctx.count("crafted_states")
+                st.ctx.guard(st.quiescent, "quiescent")(twin, "crafted")
     except Exception as e:
         ctx.count("run_raised:" + type(e).__name__)
     finally:
